@@ -48,10 +48,10 @@ Perms == {<<"not", "and", "or">>, <<"not", "or", "and">>, <<"and", "not", "or">>
 MkCfg(prec, paren, sep, orin, andin, inwild, sw, ew, ct, wm, cs, nexists, cidr, noteq, special) ==
     [ts |-> TRUE, prec |-> prec, paren |-> paren, sep |-> sep, orin |-> orin, andin |-> andin, inwild |-> inwild,
      sw |-> sw, ew |-> ew, ct |-> ct, wm |-> wm, cs |-> cs, nexists |-> nexists, cidr |-> cidr,
-     noteq |-> noteq, allowspecial |-> special]
+     noteq |-> noteq, allowspecial |-> special, defer |-> FALSE]
 FullK == [ts : BOOLEAN, prec : Perms, paren : BOOLEAN, sep : {1, 2}, orin : BOOLEAN, andin : BOOLEAN, inwild : BOOLEAN,
           sw : BOOLEAN, ew : BOOLEAN, ct : BOOLEAN, wm : BOOLEAN, cs : {"none", "match", "full"},
-          nexists : BOOLEAN, cidr : BOOLEAN, noteq : BOOLEAN, allowspecial : BOOLEAN]
+          nexists : BOOLEAN, cidr : BOOLEAN, noteq : BOOLEAN, allowspecial : BOOLEAN, defer : {FALSE}]
 Std == <<"not", "and", "or">>
 BaseK == {MkCfg(Std, FALSE, 1, FALSE, FALSE, FALSE, FALSE, FALSE, FALSE, FALSE, "none", FALSE, FALSE, FALSE, FALSE),
           MkCfg(Std, FALSE, 1, TRUE, TRUE, TRUE, TRUE, TRUE, TRUE, TRUE, "full", TRUE, TRUE, FALSE, FALSE),
@@ -83,8 +83,17 @@ SameField == <<(<<60, 58>>), (<<58, 60>>), (<<17, 58>>), (<<18, 59>>), (<<59, 18
 Cases4 == {[doc |-> Doc3(IdxOf(MapBody(<<SameField[p][1]>>)), IdxOf(MapBody(<<SameField[p][2]>>)), 1, <<c>>), K |-> KSeq[k]] :
              p \in 1..Len(SameField), k \in 1..NK,
              c \in {N_sel1 \o <<32,111,114,32>> \o N_sel2, N_sel1 \o <<32,97,110,100,32>> \o N_sel2, <<49,32,111,102,32>> \o P_selstar, <<97,108,108,32,111,102,32>> \o P_selstar}}
+\* (5) regular expressions as DEFERRED query parts (K.defer): regex-bearing bodies alone and in every condition tree
+ReBodies == {6, 34, 39, 48}       \* fE|re|i, f7|re, g3|re|m|s, h3|re: [two expressions]
+Cases5 == {[doc |-> Doc1(r, <<c>>), K |-> [KSeq[k] EXCEPT !.defer = TRUE]] :
+             r \in ReBodies, c \in {C_sel1, C_notsel1, C_notnotsel1}, k \in 1..NK}
+          \cup {[doc |-> Doc3(r, Pick(i, 1), Pick(i, 2), <<CPrint(TreeSeq[i], "min")>>), K |-> [KSeq[((i + r) % NK) + 1] EXCEPT !.defer = TRUE]] :
+             r \in {6, 34, 48}, i \in 1..Len(TreeSeq)}
+          \* (two regular expressions in one map, Combos[8])
+          \cup {[doc |-> Doc3(Len(Items) + 8, Pick(i, 1), Pick(i, 2), <<CPrint(TreeSeq[i], "min")>>), K |-> [KSeq[(i % NK) + 1] EXCEPT !.defer = TRUE]] :
+             i \in {j \in 1..Len(TreeSeq) : j % 3 = 0}}
 Small(c) == Cardinality(UNION {QAtoms(BodyQE(c.doc.dets[d].body, c.K.cidr).e) : d \in 1..Len(c.doc.dets)}) <= 9
-ASSUME LET A == SetToSeq({c \in Cases1 \cup Cases2 \cup Cases3 \cup Cases4 : Small(c)})
+ASSUME LET A == SetToSeq({c \in Cases1 \cup Cases2 \cup Cases3 \cup Cases4 \cup Cases5 : Small(c)})
            mine == SelectSeq([i \in 1..Len(A) |-> [id |-> i] @@ A[i]], LAMBDA c : c.id % NShards = Shard)
        IN  ndJsonSerialize(IOEnv.VERIF_OUT, mine)
 Init == x = 0
